@@ -147,12 +147,12 @@ func randWidth() float64 {
 func cidFontDict(widths map[cid.CID]float64, dw float64) *dict.CIDFontType2 {
 	cm, _ := cmap.Predefined("Identity-H")
 	return &dict.CIDFontType2{
-		PostScriptName: "VerifFont",
-		Descriptor:     &font.Descriptor{FontName: "VerifFont", IsSymbolic: true},
-		ROS:            &cid.SystemInfo{Registry: "Adobe", Ordering: "Identity", Supplement: 0},
-		CMap:           cm,
-		Width:          widths,
-		DefaultWidth:   dw,
+		PostScriptName:  "VerifFont",
+		Descriptor:      &font.Descriptor{FontName: "VerifFont", IsSymbolic: true},
+		ROS:             &cid.SystemInfo{Registry: "Adobe", Ordering: "Identity", Supplement: 0},
+		CMap:            cm,
+		Width:           widths,
+		DefaultWidth:    dw,
 		DefaultVMetrics: dict.DefaultVMetricsDefault,
 	}
 }
@@ -329,10 +329,10 @@ func rawW(i int) {
 		w.Put(ref, pdf.Dict{"Type": pdf.Name("Font"), "Subtype": pdf.Name("Type0"), "BaseFont": pdf.Name("VerifFont"),
 			"Encoding": pdf.Name("Identity-H"), "DescendantFonts": pdf.Array{cfRef}})
 		w.Put(cfRef, pdf.Dict{"Type": pdf.Name("Font"), "Subtype": pdf.Name("CIDFontType2"), "BaseFont": pdf.Name("VerifFont"),
-			"CIDSystemInfo": pdf.Dict{"Registry": pdf.String("Adobe"), "Ordering": pdf.String("Identity"), "Supplement": pdf.Integer(0)},
+			"CIDSystemInfo":  pdf.Dict{"Registry": pdf.String("Adobe"), "Ordering": pdf.String("Identity"), "Supplement": pdf.Integer(0)},
 			"FontDescriptor": fdRef, "W": arr, "DW": pdf.Integer(777)})
 		w.Put(fdRef, pdf.Dict{"Type": pdf.Name("FontDescriptor"), "FontName": pdf.Name("VerifFont"), "Flags": pdf.Integer(4),
-			"FontBBox": pdf.Array{pdf.Integer(0), pdf.Integer(0), pdf.Integer(1000), pdf.Integer(1000)},
+			"FontBBox":    pdf.Array{pdf.Integer(0), pdf.Integer(0), pdf.Integer(1000), pdf.Integer(1000)},
 			"ItalicAngle": pdf.Integer(0), "Ascent": pdf.Integer(800), "Descent": pdf.Integer(-200), "CapHeight": pdf.Integer(700), "StemV": pdf.Integer(80)})
 		return ref, nil
 	})
